@@ -243,9 +243,14 @@ def cases(ctx):
     global _CTX
     _CTX = ctx
     out = _gen(ctx, 400, 160, 400) if ctx.tier == 'quick' else _gen(ctx, 8000, 3000, 8000)
+    # the container a chunk is handed over in (the values are the same floats): list, tuple, generator, numpy array
+    for j, c in enumerate(out):
+        if c['kind'] in ('stats', 'cov') and 'as' not in c:
+            c['as'] = ('list', 'nparray', 'gen', 'tuple', 'nparray')[j % 5]
     for c in out:
         ctx.count('kind', c['kind'])
         ctx.count('generator', c['g'])
+        if c['kind'] in ('stats', 'cov'): ctx.count('chunk container', c.get('as', 'list'))
         if c['kind'] == 'stats':
             xs, ch = stats_data(c)
             ctx.count('n', len(xs)); ctx.count('chunks', 'one' if len(ch) == 1 else 'all-single' if all(s == 1 for s in ch) else 'mixed')
@@ -293,6 +298,16 @@ def _rs_obs(rs):
     return {'count': int(rs.count), 'mean': _num(rs.mean), 'var': _num(rs.var), 'std': _num(rs.std), 'err': _num(rs.err)}
 
 
+def _as(chunk, how):
+    """a chunk of floats in the container the case asks for"""
+    if how == 'nparray':
+        import numpy as np
+        return np.asarray(chunk, dtype=float)
+    if how == 'gen': return (x for x in chunk)
+    if how == 'tuple': return tuple(chunk)
+    return list(chunk)
+
+
 def run_real(c, ctx):
     import xyzpy.utils as U_
     try:
@@ -302,7 +317,7 @@ def run_real(c, ctx):
             i = 0
             for s in chunks:
                 if s == 1: rs.update(xs[i])
-                else: rs.update_from_it(xs[i:i + s])
+                else: rs.update_from_it(_as(xs[i:i + s], c.get('as')))
                 i += s
             return _rs_obs(rs)
         if c['kind'] == 'cov':
@@ -317,8 +332,8 @@ def run_real(c, ctx):
                         rcm.update(*[col[r] for col in cols])
                         if rc is not None: rc.update(cols[0][r], cols[1][r])
                 else:
-                    rcm.update_from_it(*[col[i:i + s] for col in cols])
-                    if rc is not None: rc.update_from_it(cols[0][i:i + s], cols[1][i:i + s])
+                    rcm.update_from_it(*[_as(col[i:i + s], c.get('as')) for col in cols])
+                    if rc is not None: rc.update_from_it(_as(cols[0][i:i + s], c.get('as')), _as(cols[1][i:i + s], c.get('as')))
                 i += s
             obs = {'count': int(rcm.count), 'counts': sorted({int(r.count) for r in rcm.rcs.values()}),
                    'means': [_num(rcm.rcs[j, j].xmean) for j in range(k)],
